@@ -489,6 +489,46 @@ def run(ctx):
             if gh is not None:
                 ctx.check("histogram:streamed", gh[0] == eh.tolist() and np.allclose(gh[1], ee), "np.histogram(no-range):streamed-arrays", "np.histogram(%s, bins=%d) over streamed arrays = %r, dense %r" % (txt, bins, gh, (eh.tolist(), ee.tolist())),
                           dict(wit, got=gh, expected=[eh.tolist(), ee.tolist()]), (tuple(sizes.items()), repr(recs_all), txt, "hist"))
+        # several results asked for in one bnp.compute call: as a dict that also holds a plain value (before the lazy results), each result under its own key
+        try:
+            with np.errstate(all="ignore"):
+                la = {int(i): make_leaf(int(i)) for i in used}
+                lb = {int(i): make_leaf(int(i)) for i in used}
+                out = bnp.compute({"factor": 3, "records": evaluate(tree, [la.get(i) for i in range(len(kinds))]).get_data(), "a-second": evaluate(tree, [lb.get(i) for i in range(len(kinds))]).get_data()})        # (reductions and record streams are not mixed in one call)
+            d2 = out["records"]
+            ok_keys = isinstance(out.get("factor"), int) and out["factor"] == 3 and hasattr(d2, "chromosome")
+            if ok_keys:
+                back2 = {n: np.zeros(sizes[n], dtype=np.asarray(exp[n]).dtype) for n in names}
+                vals2 = np.asarray(d2.value).tolist() if hasattr(d2, "value") else [True] * len(d2)
+                for c, a, b, v in zip([str(x) for x in d2.chromosome.tolist()], np.asarray(d2.start).tolist(), np.asarray(d2.stop).tolist(), vals2):
+                    if c in sizes and 0 <= a <= b <= sizes[c]:
+                        back2[c][a:b] = v
+                ok_keys = all(same(back2[n], exp[n], False) for n in names) and hasattr(out["a-second"], "chromosome") and len(out["a-second"]) == len(d2)
+            ctx.check("expression:streamed", ok_keys, "compute(dict)/results-under-other-keys:streamed-arrays", "bnp.compute({'factor': 3, 'records': ..., 'a-second': ...}) for %s returned factor=%r, records of type %s, second of type %s" % (txt, out.get("factor"), type(out.get("records")).__name__, type(out.get("a-second")).__name__),
+                      dict(wit), (tuple(sizes.items()), repr(recs_all), txt, "dict"))
+        except Exception as e:
+            if not originates_in_library(e):
+                raise
+            ctx.observe("streamed-compute-dict-refused:%s" % type(e).__name__)
+        # mask and pileup of ONE streamed interval set evaluated together (each needs the chromosome sizes)
+        if "bool" in kinds:
+            bi = kinds.index("bool")
+            flat_b = [(n, s_, e_) for n in names for (s_, e_, v_) in recs_all[bi][n]]
+            if flat_b:
+                mkiv = lambda rows: Interval([x[0] for x in rows], np.array([x[1] for x in rows], dtype=int), np.array([x[2] for x in rows], dtype=int))
+                one = genome.get_intervals(NpDataclassStream(iter([mkiv(flat_b)]), dataclass=Interval))
+                try:
+                    mres, pdat = bnp.compute((one.get_mask().get_data(), one.get_pileup().get_data()))
+                    pres = sum((int(b_) - int(a_)) * int(v_) for a_, b_, v_ in zip(np.asarray(pdat.start).tolist(), np.asarray(pdat.stop).tolist(), np.asarray(pdat.value).tolist()))
+                    cov_total = sum(e_ - s_ for _, s_, e_ in flat_b)
+                    mask_total = int(sum(int(b_) - int(a_) for a_, b_ in zip(np.asarray(mres.start).tolist(), np.asarray(mres.stop).tolist())))
+                    ctx.check("expression:streamed", int(pres) == cov_total and mask_total == int(sum(int(denses[bi][n].sum()) for n in names)), "mask+pileup/one-streamed-interval-set-evaluated-together",
+                              "mask covers %d bases (dense %d), pileup sums to %d (interval lengths %d)" % (mask_total, int(sum(int(denses[bi][n].sum()) for n in names)), int(pres), cov_total), dict(wit, intervals=flat_b), (tuple(sizes.items()), tuple(flat_b), "mp"))
+                except Exception as e:
+                    if not originates_in_library(e):
+                        raise
+                    et_ = type(e).__name__
+                    ctx.check("expression:streamed", False, "mask+pileup/one-streamed-interval-set-evaluated-together:raised-%s" % et_, "computing mask and pileup of one streamed interval set together raised %s" % et_, dict(wit, intervals=flat_b), None)
         ctx.count("streamed_expressions")
 
     for i in range(ctx.share(ctx.pick(3200, 30000))):
